@@ -68,7 +68,7 @@ def internalOnly : Ev → Bool
 
 /-- what the harness observes when the daemon's reads fail or not -/
 def observeR (s : State) (ls : Bool) : Obs :=
-  { observe s with status := statusR s ls, statusAll := listingR s ls }
+  { observe s with status := statusR s ls, statusAll := listingR s ls, lsDown := !ls }
 
 /-! ### 2. `enqueue` in two steps -/
 
